@@ -8,6 +8,14 @@ def model_type(em, name, nn):
     r = std_trait_type(em, name, nn)
     if r is not None:
         return r
+    if re.match(r'^(integer_sequence|index_sequence|make_index_sequence)<', nn):
+        # empty library tag types (only their type matters, clang already used it to expand the pack)
+        if 'M_empty_tag' not in em.struct_defs:
+            em.struct_defs['M_empty_tag'] = 'struct M_empty_tag { char _e; };'
+            em.rec_order.append('M_empty_tag')
+            em.used_records['M_empty_tag'] = ('modelx', 'std::integer_sequence<...>')
+        em.lowerings['M-tag(std::integer_sequence)'] += 1
+        return 'struct M_empty_tag'
     if nn in ('shared_timed_mutex', 'mutex', 'shared_mutex'):
         em.lowerings['M-lock(type)'] += 1
         return 'struct M_lock'
@@ -372,6 +380,24 @@ def _param_stub(em, e):
 def indirect_call(em, n, callee_e, args):
     st = _param_stub(em, callee_e)
     if st is None:
+        # calls through a *local* function-pointer variable named in opts['indirect_stubs'] go to a recording stub
+        # that receives the target pointer as its first argument
+        stubs = em.opts.get('indirect_stubs') or {}
+        c = callee_e
+        while c.get('kind') in ('ImplicitCastExpr', 'ParenExpr', 'UnaryOperator') and inner(c):
+            if c.get('kind') == 'UnaryOperator' and c.get('opcode') != '*':
+                break
+            c = inner(c)[0]
+        if c.get('kind') == 'DeclRefExpr' and c['referencedDecl'].get('name') in stubs:
+            stub = stubs[c['referencedDecl']['name']]
+            ft = T.parse(qt(callee_e))
+            while ft[0] in ('p', 'ref'):
+                ft = ft[1]
+            out = []
+            for a, pt in zip(args, ft[2]):
+                out.append('&(%s)' % em.E(a) if pt[0] == 'ref' else em.E(a))
+            em.lowerings['M-callable(indirect call through %s -> recording stub)' % c['referencedDecl']['name']] += 1
+            return '%s(%s)' % (stub, ', '.join(['(void *)(%s)' % em.E(c)] + out))
         return None
     em.lowerings['M-callable(parameter %s -> contract stub)' % st] += 1
     return '%s(%s)' % (st, ', '.join(em.E(a) for a in args))
@@ -400,6 +426,9 @@ def member_expr(em, n, base, d):
 
 def construct(em, n, ii, rec):
     """iterator -> const_iterator conversions of modelled containers are the identity"""
+    if rec is None and re.match(r'^(integer_sequence|index_sequence|make_index_sequence)<', norm_name(qt(n) or '')):
+        em.resolve(T.parse(qt(n)))
+        return '((struct M_empty_tag){ 0 })'
     if rec is None and len(ii) == 1 and _is_mapit(em, n) and _is_mapit(em, ii[0]):
         return em.E(ii[0])
     if rec is None and len(ii) == 1 and _is_vecit(em, n) and _is_vecit(em, ii[0]):
